@@ -3,9 +3,11 @@
 set -e
 cd "$(dirname "$0")"
 export CARGO_NET_OFFLINE=true
-python3 tools/translate.py /repo lean
+REPO="${VERIF_REPO:-/repo}"
+ln -sfn "$REPO" repo-link
+python3 tools/translate.py "$REPO" lean
 (cd lean && lake build LopdfModel drv)
-[ -f harness/Cargo.lock ] || cp /repo/Cargo.lock harness/Cargo.lock
+[ -f harness/Cargo.lock ] || cp "$REPO"/Cargo.lock harness/Cargo.lock
 (cd harness && cargo build --release --offline)
 (cd harness && cargo build --release --offline --no-default-features --target-dir target-seq)
 echo "setup ok"
